@@ -166,4 +166,20 @@ def check_C11(tier, seed):
     return finish("C11", tier, seed, t0, "proof", proof, suites, [mon_c17], widen=widen)
 
 
-CHECKS = {"C11": check_C11, "C05": check_C05, "C06": check_C06, "C07": check_C07, "C10": check_C10, "C15": check_C15, "C17": check_C17, "C12": check_C12, "C09": check_C09, "C04": check_C04, "C01": check_C01, "C02": check_C02, "C03": check_C03, "C08": check_C08}
+def check_C16(tier, seed):
+    t0 = time.time()
+    L = 4 if tier == "quick" else 6
+    shapes = gen.ALL_SHAPES if tier != "quick" else ["One", "Two", "Flat4", "Heap", "DrH", "DrN", "NMid", "NMidF", "Deep"]
+    build_harness("debug"); build_harness("release")
+    proof = prove("C16", ["Soa.Props.C16"])
+    retain, others = gen.fault_scenarios(shapes, L, seed)
+    suites = [run_suite("C16", retain, ["debug", "release"], [mon_c16], "retain", compare_model=True),
+              run_suite("C16", others, ["debug"] if tier == "quick" else ["debug", "release"], [mon_c16], "others", compare_model=False)]
+    def widen():
+        r, o = gen.fault_scenarios(gen.ALL_SHAPES, 6, seed + 1)
+        yield run_suite("C16", r + o, ["debug", "release"], [mon_c16], "widen", compare_model=False)
+    return finish("C16", tier, seed, t0, "proof", proof, suites, [mon_c16], widen=widen,
+                  extra_cov={"exhaustive": True, "explanation": "every invocation index of every callback as panic point for len <= L"})
+
+
+CHECKS = {"C16": check_C16, "C11": check_C11, "C05": check_C05, "C06": check_C06, "C07": check_C07, "C10": check_C10, "C15": check_C15, "C17": check_C17, "C12": check_C12, "C09": check_C09, "C04": check_C04, "C01": check_C01, "C02": check_C02, "C03": check_C03, "C08": check_C08}
